@@ -94,6 +94,7 @@ struct Ctx {
     std::string gen;
     Out* out = nullptr;
     long nfail_here = 0;
+    bool nan = false;          // a non-finite factorization was handed over: the history stops and no correspondence line is written
     bool nearinv = false;      // sticky diagnostic: a residual handed over by init / compress_V had beta < 1e-2 ||A||_F (it is normalised by the next
                                // factorize_from without any re-orthogonalisation); used only for known-finding matching
     bool discard = false;      // sticky diagnostic: a hand-over point of this run showed an exact zero beta or subdiagonal (f := 0 shortcut / restart)
@@ -131,7 +132,7 @@ static void check_point(Ctx& c, const char* tag, const Mat& V, const Mat& H, con
     out.count(std::string("oracle_") + tag);
     if (k_expected >= 0 && k != k_expected) { report(c, "krylov-k", std::string(tag) + ": subspace_dim = " + str(k) + " but advertised " + str(k_expected), rj(c, tag)); return; }
     if (k < 1 || k > V.cols()) { report(c, "krylov-k", std::string(tag) + ": subspace_dim = " + str(k) + " out of range", rj(c, tag)); return; }
-    if (!finite_all(V, k, H, f, beta)) { report(c, "krylov-nan", std::string(tag) + ": non-finite entries in V/H/f/beta handed over (gen " + c.gen + ")", rj(c, tag)); return; }
+    if (!finite_all(V, k, H, f, beta)) { c.nan = true; report(c, "krylov-nan", std::string(tag) + ": non-finite entries in V/H/f/beta handed over (gen " + c.gen + ")", rj(c, tag)); return; }
     if ((!std::strcmp(tag, "arnoldi.init") || !std::strcmp(tag, "arnoldi.compress")) && (LD) std::fabs(beta) < 1e-2L * c.normA) c.nearinv = true;
     { for (int j = 0; j + 1 < k; j++) if ((LD) std::fabs(H(j + 1, j)) < 1e-2L * c.normA) c.tinysub = true; }
     { if (beta == 0.0) c.discard = true; for (int j = 0; j + 1 < k; j++) if (H(j + 1, j) == 0.0) c.discard = true; }
@@ -308,25 +309,86 @@ template <class AOP> struct FacObs : Spectra::verif::Observer {
     }
 };
 
+// ---- structured breakdown problems for the CORRESPONDENCE streams (and the oracle): the Krylov sequence breaks down after q < m steps
+//  kind 0 "bk_eigvec"  : v0 = c e_0 an EXACT eigenvector (row/column 0 of A decoupled, integer eigenvalue): f = 0 exactly after init
+//  kind 1 "bk_eignoise": v0 = eigenvector up to rounding (A = P D P resp. W D W'B): step-1 residual is rounding noise (init guard taken or not)
+//  kind 2 "bk_twoeig"  : v0 = sum of two such eigenvectors: numerically invariant subspace of dimension 2 (re-orthogonalisation `f := 0` shortcut)
+//  kind 3 "bk_block"   : v0 = c e_0 inside an EXACT invariant block of size q = 2..3 (integer upper Hessenberg / symmetric tridiagonal block,
+//                        unreduced), so that beta = 0 EXACTLY after q steps: `beta < near_0` -> expand_basis -> further steps after the restart
+//  With B (Lanczos only): exact kinds use B = blockdiag(diag(powers of 4), dense SPD) and the operator S*B with S block diagonal;
+//  noise kinds use the dense SPD B = L L', W = L^-T P (so W'BW = I), operator (W D W') B, v0 = W e_0 (+ W e_1).
+static const char* BKN[] = {"bk_eigvec", "bk_eignoise", "bk_twoeig", "bk_block"};
+static Problem make_breakdown(Rng& r, int n, int kind, bool sym, bool withB, DenseOp& Bm) {
+    Problem p(n); p.gen = 0; p.sym = sym;
+    if (kind == 0 || kind == 3) {
+        int q = kind == 0 ? 1 : r.range(2, 3);
+        std::vector<double> bd(q, 1.0);
+        if (withB) for (int i = 0; i < q; i++) bd[i] = std::pow(4.0, r.range(-1, 2));
+        // S: block 1 integer (symmetric tridiagonal for Lanczos, upper Hessenberg for Arnoldi), unreduced; block 2 random
+        DenseOp S(n);
+        for (int i = 0; i < q; i++) for (int j = 0; j < q; j++) {
+            bool band = sym ? (std::abs(i - j) <= 1) : (i <= j + 1);
+            if (!band) continue;
+            double v = (double) r.range(-3, 3);
+            if (i == j + 1 && v == 0) v = 1; if (i == j && q == 1 && v == 0) v = 2;
+            S.at(i, j) = v;
+        }
+        if (sym) for (int i = 0; i < q; i++) for (int j = 0; j < i; j++) S.at(j, i) = S.at(i, j);
+        for (int i = q; i < n; i++) for (int j = q; j < n; j++) S.at(i, j) = r.coin(0.5) ? r.sym() : (double) r.range(-2, 2);
+        if (sym) for (int i = q; i < n; i++) for (int j = q; j < i; j++) S.at(j, i) = S.at(i, j);
+        if (withB) {
+            DenseOp B2 = make_spd(r, n);
+            for (auto& x : Bm.a) x = 0.0;
+            for (int i = 0; i < q; i++) Bm.at(i, i) = bd[i];
+            for (int i = q; i < n; i++) for (int j = q; j < n; j++) Bm.at(i, j) = B2.at(i, j);
+            Mat Sm(n, n), Bq(n, n); for (int i = 0; i < n; i++) for (int j = 0; j < n; j++) { Sm(i, j) = S.at(i, j); Bq(i, j) = Bm.at(i, j); }
+            Mat P = Sm * Bq; for (int i = 0; i < n; i++) for (int j = 0; j < n; j++) p.A.at(i, j) = ((i < q) == (j < q)) ? P(i, j) : 0.0;
+        } else p.A = S;
+        p.v0.setZero(); static const double cs[] = {1.0, 2.0, -0.5, 3.0, -4.0}; p.v0[0] = cs[r.below(5)];
+        if (r.coin(0.25)) { int e = r.range(-8, 8); double sc = std::pow(10.0, e); if (kind == 0 || e == 0) { for (auto& x : p.A.a) x *= sc; p.scale_exp = e; } }
+        return p;
+    }
+    // noise kinds
+    std::vector<double> u(n), d(n); double uu = 0; for (int i = 0; i < n; i++) { u[i] = r.sym(); uu += u[i] * u[i]; d[i] = r.coin(0.5) ? r.sym() * 3 : (double) r.range(-3, 3); if (d[i] == 0) d[i] = 1.5; }
+    Mat P = Mat::Identity(n, n); for (int i = 0; i < n; i++) for (int j = 0; j < n; j++) P(i, j) -= 2 * u[i] * u[j] / uu;
+    Mat D = Mat::Zero(n, n); for (int i = 0; i < n; i++) D(i, i) = d[i];
+    if (!sym) for (int i = 0; i < n; i++) for (int j = i + 1; j < n; j++) D(i, j) = r.sym();
+    Mat W = P, A;
+    if (withB) {
+        Mat Bq(n, n); for (int i = 0; i < n; i++) for (int j = 0; j < n; j++) Bq(i, j) = Bm.at(i, j);
+        Eigen::LLT<Mat> llt(Bq); Mat L = llt.matrixL();
+        W = L.transpose().triangularView<Eigen::Upper>().solve(P);
+        Mat S = W * D * W.transpose(); S = (0.5 * (S + S.transpose())).eval();
+        A = S * Bq;
+    } else { A = P * D * P; if (sym) A = (0.5 * (A + A.transpose())).eval(); }
+    double sc = 1.0; if (r.coin(0.3)) { int e = r.range(-8, 8); sc = std::pow(10.0, e); p.scale_exp = e; }
+    for (int i = 0; i < n; i++) for (int j = 0; j < n; j++) p.A.at(i, j) = A(i, j) * sc;
+    for (int i = 0; i < n; i++) p.v0[i] = W(i, 0) + (kind == 2 ? W(i, 1) : 0.0);
+    return p;
+}
+
 template <bool LAN>
-static void direct_case(uint64_t seed, long idx, Out& out, bool do_corr, int force_gen = -1) {
-    Rng r(seed, LAN ? 71 : 72, (uint64_t) idx);
-    int n = r.coin(0.85) ? r.range(2, 9) : r.range(10, 12);
-    int m = r.range(2, std::min(n, 8));
+static void direct_case(uint64_t seed, long idx, Out& out, bool do_corr, int force_gen = -1, int bk = -1) {
+    Rng r(seed, bk >= 0 ? (LAN ? 76 : 77) : (LAN ? 71 : 72), (uint64_t) idx);
+    int n = bk >= 0 ? r.range(5, 10) : (r.coin(0.85) ? r.range(2, 9) : r.range(10, 12));
+    int m = bk >= 0 ? r.range(4, std::min(n, 8)) : r.range(2, std::min(n, 8));
     int gen = force_gen >= 0 ? force_gen : (int) r.below(G_COUNT - 1);       // kerstart only when forced (NaN, oracle only)
-    bool withB = LAN && r.coin(0.3) && gen != G_KER;
-    Problem p = make_problem(r, n, gen, LAN);
+    bool withB = LAN && (bk >= 0 ? ((idx / 4) % 2 == 1) : r.coin(0.3)) && gen != G_KER;
     DenseOp Bm = make_spd(r, n);
-    if (withB) {  // operator S*B is B-self-adjoint
+    Problem p = bk >= 0 ? make_breakdown(r, n, bk, LAN, withB, Bm) : make_problem(r, n, gen, LAN);
+    if (bk >= 0) gen = 0;
+    const std::string gname = bk >= 0 ? BKN[bk] : GEN[gen];
+    if (withB && bk < 0) {  // operator S*B is B-self-adjoint
         Mat Sm(n, n), Bq(n, n); for (int i = 0; i < n; i++) for (int j = 0; j < n; j++) { Sm(i, j) = p.A.at(i, j); Bq(i, j) = Bm.at(i, j); }
         Mat P = Sm * Bq; for (int i = 0; i < n; i++) for (int j = 0; j < n; j++) p.A.at(i, j) = P(i, j);
     }
     Track tr; p.A.tr = &tr;
-    Ctx c; c.out = &out; c.lanczos = LAN; c.cls = LAN ? "Lanczos" : "Arnoldi"; c.gen = GEN[gen]; set_ctx_dense(c, p.A, withB ? &Bm : nullptr);
+    Ctx c; c.out = &out; c.lanczos = LAN; c.cls = LAN ? "Lanczos" : "Arnoldi"; c.gen = gname; set_ctx_dense(c, p.A, withB ? &Bm : nullptr);
     { Vec y(n); p.A.perform_op(p.v0.data(), y.data()); c.av0zero = (y.cwiseAbs().maxCoeff() == 0.0); }
-    c.replay = "{\"c07mode\":\"direct\",\"c07lanczos\":" + str((int) LAN) + ",\"c07idx\":" + str(idx) + ",\"c07seed\":" + str(seed) + ",\"c07force\":" + str(force_gen) + ",\"gen\":\"" + GEN[gen] + "\",\"withB\":" + str((int) withB) + ",\"scale_exp\":" + str(p.scale_exp) + ",\"n\":" + str(n) + ",\"m\":" + str(m);
-    out.count(std::string("direct_gen_") + GEN[gen]); if (withB) out.count("direct_withB");
+    c.replay = "{\"c07mode\":\"direct\",\"c07lanczos\":" + str((int) LAN) + ",\"c07idx\":" + str(idx) + ",\"c07seed\":" + str(seed) + ",\"c07force\":" + str(force_gen) + ",\"c07bk\":" + str(bk) + ",\"gen\":\"" + gname + "\",\"withB\":" + str((int) withB) + ",\"scale_exp\":" + str(p.scale_exp) + ",\"n\":" + str(n) + ",\"m\":" + str(m);
+    out.count(std::string("direct_gen_") + gname); if (withB) out.count(bk >= 0 ? "direct_bk_withB" : "direct_withB");
     std::string req, resp, opsq; int nops = 0;
+    long t_init0 = 0, t_restart = 0, t_restart_steps = 0, t_fbeta0 = 0, t_nexp = 0;   // branch tags of this history (implementation side)
     auto run = [&](auto& fac, auto& obs) {
         Index ops = 0;
         req = std::string(LAN ? "lanczos_steps " : "arnoldi_steps ") + str(n) + " " + str(m) + " " + str(dbits(AX::near0(fac))) + " " + str(dbits(AX::eps(fac))) + " " + (withB ? "1" : "0") + bitsrow(p.A) + (withB ? bitsrow(Bm) : std::string());
@@ -334,14 +396,19 @@ static void direct_case(uint64_t seed, long idx, Out& out, bool do_corr, int for
           try { fac.init(v0, ops); } catch (const std::invalid_argument&) { resp += "| throw"; out.count("direct_throw"); return; }
           resp += snapshot(fac, ops, obs.nexp) + " ";
           check_point(c, "arnoldi.init", AX::V(fac), AX::H(fac), AX::f(fac), AX::beta(fac), (int) AX::k(fac), 1);
-          if (c.nfail_here) return; }
+          if (AX::beta(fac) == 0.0) t_init0++;
+          if (c.nan) return; }
         auto fact = [&](Index a, Index b) -> bool {
             opsq += " F " + str(a) + " " + str(b); nops++;
             Index kbefore = AX::k(fac);
             try { fac.factorize_from(a, b, ops); } catch (const std::invalid_argument&) { resp += "| throw"; out.count("direct_throw"); return false; }
             resp += snapshot(fac, ops, obs.nexp) + " ";
             check_point(c, LAN ? "lanczos.factorize" : "arnoldi.factorize", AX::V(fac), AX::H(fac), AX::f(fac), AX::beta(fac), (int) AX::k(fac), (int) (b > a ? b : kbefore));
-            return c.nfail_here == 0; };
+            if (b > a && !c.nan) {   // a zero sub-diagonal in a NEW column = that pass went through expand_basis (restart)
+                for (Index i = a; i < b; i++) if (AX::H(fac)(i, i - 1) == 0.0) { t_restart++; if (i + 1 < b) t_restart_steps++; }
+                if (AX::beta(fac) == 0.0) t_fbeta0++;
+            }
+            return !c.nan; };
         int m1 = r.range(1, m);
         if (!fact(1, m1)) return;
         if (r.coin(0.1)) { if (!fact(m1, m1)) return; }                 // no-op
@@ -364,7 +431,7 @@ static void direct_case(uint64_t seed, long idx, Out& out, bool do_corr, int for
             fac.compress_V(Q);
             resp += snapshot(fac, ops, obs.nexp) + " ";
             check_point(c, "arnoldi.compress", AX::V(fac), AX::H(fac), AX::f(fac), AX::beta(fac), (int) AX::k(fac), knew);
-            if (c.nfail_here) return;
+            if (c.nan) return;
             if (!fact(knew, m)) return;
         }
     };
@@ -372,19 +439,30 @@ static void direct_case(uint64_t seed, long idx, Out& out, bool do_corr, int for
         typedef Spectra::ArnoldiOp<double, DenseOp, DenseOp> AOP;
         FacObs<AOP> obs(&c, &tr, false); Spectra::verif::observer() = &obs;
         if constexpr (LAN) { Spectra::Lanczos<double, AOP> fac(AOP(p.A, Bm), m); run(fac, obs); }
-        out.count("direct_expansions", obs.nexp);
+        out.count("direct_expansions", obs.nexp); t_nexp = obs.nexp;
     } else {
         typedef Spectra::ArnoldiOp<double, DenseOp, Spectra::IdentityBOp> AOP;
         FacObs<AOP> obs(&c, &tr, false); Spectra::verif::observer() = &obs;
         Spectra::IdentityBOp ib;
         typename std::conditional<LAN, Spectra::Lanczos<double, AOP>, Spectra::Arnoldi<double, AOP>>::type fac(AOP(p.A, ib), m);
         run(fac, obs);
-        out.count("direct_expansions", obs.nexp);
+        out.count("direct_expansions", obs.nexp); t_nexp = obs.nexp;
     }
     Spectra::verif::observer() = nullptr;
     while (!resp.empty() && resp.back() == ' ') resp.pop_back();
-    bool finite = resp.find("throw") != std::string::npos || c.nfail_here == 0;
-    if (do_corr && finite && gen != G_KER) out.corr(req + " " + str(nops) + opsq, resp);
+    // a correspondence line is written for EVERY finite history, also when the oracle reported a failure on it
+    if (do_corr && !c.nan && (bk >= 0 || gen != G_KER)) {
+        out.corr(req + " " + str(nops) + opsq, resp);
+        const std::string pre = std::string("corrtag_") + (LAN ? "lanczos" : "arnoldi") + (withB ? "B_" : "_");
+        out.count(pre + "lines");
+        if (t_init0) out.count(pre + "init_shortcut_beta0");
+        if (t_init0 && (bk == 1 || bk == 2)) out.count(pre + "init_guard_on_noise");
+        if (t_restart) { out.count(pre + "lines_with_restart"); out.count(pre + "expand_basis_calls", t_restart); }
+        if (t_nexp) out.count(pre + "expansions_accepted", t_nexp);
+        if (t_restart_steps) out.count(pre + "restart_followed_by_steps", t_restart_steps);
+        if (t_fbeta0) out.count(pre + "factorize_end_beta0");
+        if (c.nfail_here) out.count(pre + "lines_with_oracle_failure");
+    }
 }
 
 // kernel-level compress_V with an ARBITRARY dense Q (exercises the nnz truncation) on an explicit state
@@ -512,12 +590,14 @@ int main(int argc, char** argv) {
         if (t.find("arnoldiB") != std::string::npos) arnoldiB_case(sd, out);
         else if (t.find("\"c07mode\":\"solver\"") != std::string::npos || t.find("\"c07mode\": \"solver\"") != std::string::npos) solver_case(sd, idx, out);
         else if (t.find("compressV") != std::string::npos) compressV_case(sd, idx, out);
-        else if (find_num(t, "c07lanczos", 0)) direct_case<true>(sd, idx, out, true, force);
-        else direct_case<false>(sd, idx, out, true, force);
+        else if (find_num(t, "c07lanczos", 0)) direct_case<true>(sd, idx, out, true, force, (int) find_num(t, "c07bk", -1));
+        else direct_case<false>(sd, idx, out, true, force, (int) find_num(t, "c07bk", -1));
         out.finish(); return 0;
     }
     long nd = a.thorough() ? 30000 : 1000, nc = a.thorough() ? 5000 : 400, ns = a.thorough() ? 48000 : 1600;
     for (long i = 0; i < nd; i++) { direct_case<false>(a.seed, i, out, true); direct_case<true>(a.seed, i, out, true); }
+    // structured breakdown histories: a fixed share (nd/4 each for Arnoldi and Lanczos; kinds cycle, every second group of 4 with B for Lanczos)
+    for (long i = 0; i < nd / 4; i++) { direct_case<false>(a.seed, i, out, true, -1, (int) (i % 4)); direct_case<true>(a.seed, i, out, true, -1, (int) (i % 4)); }
     for (long i = 0; i < nc; i++) compressV_case(a.seed, i, out);
     for (long i = 0; i < 3; i++) { direct_case<false>(a.seed, 1000000 + i, out, false, G_KER); direct_case<true>(a.seed, 1000000 + i, out, false, G_KER); }
     for (long i = 0; i < ns; i++) solver_case(a.seed, i, out);
